@@ -23,7 +23,7 @@ if _rlog:
     _rl = open(_rlog, 'a', buffering=1)
     _rfd = _rl.fileno()
     _rpid = _os.getpid()
-    _RNAMES = ('meson.build', 'meson.options', 'meson_options.txt')
+    _RNAMES = ('meson.build', 'meson.options', 'meson_options.txt', 'Cargo.toml', 'Cargo.lock')
 
     def _raudit(event, args):
         try:
